@@ -36,6 +36,7 @@
         (define (append . lsts)
         (cond
             ((null? lsts) '())
+            ((null? (cdr lsts)) (car lsts))
             ((null? (car lsts)) (apply append (cdr lsts)))
             (else (cons (caar lsts) (apply append (cdar lsts) (cdr lsts))))))
 
